@@ -335,7 +335,7 @@ class Interp:
                 raise Unmodelled(stmt, "path explosion")
         return cur
 
-    def stmt(self, node, st: State):
+    def stmt_base(self, node, st: State):
         if isinstance(node, ast.Return):
             v = self.expr(node.value, st) if node.value is not None else NoneV()
             return [(st, (node, v))]
@@ -390,14 +390,84 @@ class Interp:
         st.site("unmodelled", node, why=f"statement {type(node).__name__}")
         return [(st, None)]
 
-    def loop(self, node, st: State):
-        """default: havoc the variables the loop assigns, record the loop site"""
-        st.site("loop-stmt", node)
+    def loop_havoc(self, node, st: State):
+        """havoc the variables the loop assigns, record the loop site"""
+        st.site("loop-stmt", node, iter=ast.unparse(node.iter) if isinstance(node, ast.For) else "while")
         self.unmodelled.append((node, "loop statement"))
         for n in ast.walk(node):
             if isinstance(n, ast.Name) and isinstance(n.ctx, ast.Store):
                 st.env[n.id] = Opaque("loop-assigned")
         return [(st, None)]
+
+    # ---------------- loops (statement form)
+    def loop(self, node, st: State):
+        if isinstance(node, ast.While):
+            return self.loop_havoc(node, st)
+        it = self.expr(node.iter, st)
+        dom = self.iter_domain(it, st, node) if not isinstance(it, SeqV) else (it.var, it.count, None, it.elem)
+        assigned = {n.id for n in ast.walk(node) if isinstance(n, ast.Name) and isinstance(n.ctx, ast.Store)}
+        if dom is None:
+            st.site("loop", node, count=None, what="for", iter=it)
+            for k in assigned:
+                st.env[k] = Opaque("loop-assigned")
+            return [(st, None)]
+        var, count, enum_val, elem = dom
+        st.site("loop", node, count=count, what="for")
+        first = st.fork()  # first iteration: pre-loop values of loop-carried variables, offset 0
+        after = st.fork()
+        for k in assigned:
+            after.env[k] = Opaque("loop-assigned")
+        body_st = st
+        loop_targets = {n.id for n in ast.walk(node.target) if isinstance(n, ast.Name)}
+        for k in assigned - loop_targets:
+            # value from earlier iterations is unknown, but keep None-ness unknown too
+            body_st.env[k] = Opaque("loop-carried")
+        if elem is None:
+            elem = Opaque("filtered element")
+        if enum_val is not None and isinstance(node.target, ast.Tuple) and len(node.target.elts) == 2:
+            self.assign(node.target.elts[0], enum_val, body_st, node)
+            self.assign(node.target.elts[1], elem, body_st, node)
+        else:
+            self.assign(node.target, elem, body_st, node)
+        body_st.bounds.append((var, count))
+        if isinstance(it, SeqV) and it.filt is not None:
+            body_st.facts.append(it.filt)
+        outs = []
+        for s2, out in self.block(node.body, body_st):
+            if out is not None and not (isinstance(out[1], Obj) and out[1].kind in ("continue", "break")):
+                if s2.bounds and s2.bounds[-1][0] == var:
+                    pass
+                outs.append((s2, out))
+            else:
+                # sites of the body belong to the function: carry them over to the fall-through state
+                seen = {id(x) for x in after.sites}
+                after.sites.extend(x for x in s2.sites if id(x) not in seen)
+        # first iteration, exact in the loop-carried variables (catches e.g. an unguarded None seed)
+        try:
+            e0 = poly.subst(elem.f, {var: ZERO}) if isinstance(elem, Num) else None
+            elem0 = Num(e0) if e0 is not None else (Obj("candle", poly.subst(elem.data, {var: ZERO})) if isinstance(elem, Obj) and elem.kind == "candle" else elem)
+            if enum_val is not None and isinstance(node.target, ast.Tuple) and len(node.target.elts) == 2:
+                self.assign(node.target.elts[0], Num(ZERO), first, node)
+                self.assign(node.target.elts[1], elem0, first, node)
+            else:
+                self.assign(node.target, elem0, first, node)
+            first.facts.append(("ge0", count - ONE))
+            if isinstance(it, SeqV) and it.filt is not None:
+                first.facts.append(poly.subst(it.filt, {var: ZERO}))
+            for s2, out in self.block(node.body, first):
+                seen = {id(x) for x in after.sites}
+                after.sites.extend(x for x in s2.sites if id(x) not in seen)
+        except Unmodelled:
+            pass
+        outs.append((after, None))
+        return outs
+
+    def stmt(self, node, st):
+        if isinstance(node, ast.Continue):
+            return [(st, (node, Obj("continue")))]
+        if isinstance(node, ast.Break):
+            return [(st, (node, Obj("break")))]
+        return self.stmt_base(node, st)
 
     def assign(self, tgt, v: Val, st: State, node):
         if isinstance(tgt, ast.Name):
